@@ -201,7 +201,7 @@ Qed.
 
 (* ------------------------------------------------------------------ the window bound *)
 
-(* admitted cost of key k in the window, computed on its own bucket *)
+(* granted cost of key k in the window, computed on its own bucket *)
 Definition gainw (o : opts) (k : addr) (t0 t1 : Z) (s : option bucket) (e : lev) : Z :=
   match e, snd (kstep o k s e) with
   | EvAllow t a n, Some true => if (t0 <=? t) && (t <=? t1) then n else 0
@@ -214,10 +214,10 @@ Fixpoint kadm (o : opts) (k : addr) (t0 t1 : Z) (s : option bucket) (h : list le
   | e :: h' => gainw o k t0 t1 s e + kadm o k t0 t1 (fst (kstep o k s e)) h'
   end.
 
-Lemma admitted_kadm o k t0 t1 h : forall t, nodup_keys t ->
-  lim_admitted o k t0 t1 h (lim_decisions o t h) = kadm o k t0 t1 (lim_lookup k t) h.
+Lemma granted_kadm o k t0 t1 h : forall t, nodup_keys t ->
+  lim_granted o k t0 t1 h (lim_decisions o t h) = kadm o k t0 t1 (lim_lookup k t) h.
 Proof.
-  induction h as [|e h IH]; intros t H; cbn [lim_decisions lim_admitted kadm]; auto.
+  induction h as [|e h IH]; intros t H; cbn [lim_decisions lim_granted kadm]; auto.
   rewrite (IH _ (step_nodup o t e H)), (step_lookup o k t e H). f_equal.
   unfold gainw.
   destruct e as [now a n|now]; [|reflexivity].
@@ -440,11 +440,11 @@ Qed.
 Lemma bound_general o k t0 t1 h :
   0 < o_limit o -> 0 <= o_burst o -> lim_sorted h = true ->
   (has_gc h = true -> o_burst o <= 60 * o_limit o) -> t0 <= t1 ->
-  lim_admitted o k t0 t1 h (lim_decisions o [] h) * SCALE
+  lim_granted o k t0 t1 h (lim_decisions o [] h) * SCALE
     <= o_burst o * SCALE + o_limit o * (t1 - t0) + (o_limit o - 1).
 Proof.
   intros R B S G T.
-  rewrite admitted_kadm by apply nodup_nil. cbn [lim_lookup].
+  rewrite granted_kadm by apply nodup_nil. cbn [lim_lookup].
   destruct h as [|e h].
   - cbn. assert (0 <= o_limit o * (t1 - t0)) by (apply Z.mul_nonneg_nonneg; lia). unfold SCALE. lia.
   - apply (kadm_bound o k R B t0 t1 (e :: h) None (ev_time e)); auto.
@@ -454,7 +454,7 @@ Qed.
 
 Lemma bound_nogc o k t0 t1 h :
   0 < o_limit o -> 0 <= o_burst o -> lim_sorted h = true -> has_gc h = false -> t0 <= t1 ->
-  lim_admitted o k t0 t1 h (lim_decisions o [] h) * SCALE
+  lim_granted o k t0 t1 h (lim_decisions o [] h) * SCALE
     <= o_burst o * SCALE + o_limit o * (t1 - t0) + (o_limit o - 1).
 Proof.
   intros R B S G T. apply bound_general; auto. rewrite G. discriminate.
@@ -462,7 +462,7 @@ Qed.
 
 Lemma bound_gc o k t0 t1 h :
   0 < o_limit o -> 0 <= o_burst o -> lim_sorted h = true -> o_burst o <= 60 * o_limit o -> t0 <= t1 ->
-  lim_admitted o k t0 t1 h (lim_decisions o [] h) * SCALE
+  lim_granted o k t0 t1 h (lim_decisions o [] h) * SCALE
     <= o_burst o * SCALE + o_limit o * (t1 - t0) + (o_limit o - 1).
 Proof.
   intros R B S G T. apply bound_general; auto.
@@ -548,7 +548,7 @@ Proof.
   apply N.mul_cancel_r in H; auto.
 Qed.
 
-(* ------------------------------------------------------------------ admission rule *)
+(* ------------------------------------------------------------------ acceptance rule *)
 
 Lemma forwards_refusal l : forwards (refusal l) = false.
 Proof. destruct l; reflexivity. Qed.
@@ -557,15 +557,15 @@ Proof. destruct l; reflexivity. Qed.
    limiter is not charged any further *)
 Lemma refusal_rule r now l a hit c :
   query_cost l = Some c -> rl_is_ok (snd (rl_allow r now a c)) = false ->
-  admit_query r now l a hit = (fst (rl_allow r now a c), refusal l).
-Proof. intros Q H. unfold admit_query. rewrite Q, H. reflexivity. Qed.
+  accept_query r now l a hit = (fst (rl_allow r now a c), refusal l).
+Proof. intros Q H. unfold accept_query. rewrite Q, H. reflexivity. Qed.
 
-Lemma admitted_rule r now l a hit c :
+Lemma answered_rule r now l a hit c :
   query_cost l = Some c -> rl_is_ok (snd (rl_allow r now a c)) = true ->
-  snd (admit_query r now l a hit) = OAnswered.
-Proof. intros Q H. unfold admit_query. rewrite Q, H. reflexivity. Qed.
+  snd (accept_query r now l a hit) = OAnswered.
+Proof. intros Q H. unfold accept_query. rewrite Q, H. reflexivity. Qed.
 
-(* without a global limit the admission decision is exactly the client limiter's decision for that address *)
+(* without a global limit the acceptance decision is exactly the client limiter's decision for that address *)
 Lemma rl_allow_client o t now a n : a <> ANone ->
   rl_allow (mkRl None (Some (o, t))) now a n =
   (mkRl None (Some (o, fst (lim_step o t (EvAllow now a n)))),
@@ -591,11 +591,11 @@ Lemma k3_witness :
 Proof. vm_compute. auto. Qed.
 
 (* the one-nanosecond slack of the bound is attained: rate 3/s, burst 1; after 333 333 333 ns the bucket
-   holds 0.999999999 token and x/time/rate admits (the wait would be 1/3 ns, truncated to 0) *)
+   holds 0.999999999 token and x/time/rate grants (the wait would be 1/3 ns, truncated to 0) *)
 Definition slack_opts : opts := mkOpts 3 1 24 48.
 Definition slack_history : list lev := [EvAllow 0 k3_client 1; EvAllow 333333333 k3_client 1].
 Lemma slack_witness :
   lim_decisions slack_opts [] slack_history = [Some true; Some true] /\
-  lim_admitted slack_opts (mask_addr slack_opts k3_client) 0 333333333 slack_history (lim_decisions slack_opts [] slack_history) * SCALE
+  lim_granted slack_opts (mask_addr slack_opts k3_client) 0 333333333 slack_history (lim_decisions slack_opts [] slack_history) * SCALE
     = o_burst slack_opts * SCALE + o_limit slack_opts * (333333333 - 0) + 1.
 Proof. vm_compute. auto. Qed.
